@@ -181,6 +181,12 @@ package trzsz
 //@   loop 1
 //@     invariant recvd == old(recvd) && same(b.nextBuf, old(b.nextBuf)) && b.nextIdx == old(b.nextIdx)
 //@     invariant b.nextBuf == nil || b.nextIdx >= len(b.nextBuf)
+//@     invariant [C18] fired ==> b.newTimeout == nil
+//@   # C18: when the timeout fires while a fresh timeout is waiting (a resume installed one), the fresh one
+//@   # is adopted and the wait goes on; a timeout is reported only when none was waiting
+//@   ghostvar fired bool = false
+//@   after recv:b.timeout set fired = true
+//@   ensures [C18] r1 != nil && fired ==> b.newTimeout == nil
 //@ end
 
 //@ # the line buffer holds exactly G[b][p .. p+n)
@@ -293,6 +299,12 @@ package trzsz
 //@ pure createdMade(t *trzszTransfer) bool = \
 //@     forall i int {t.createdFiles[i]} :: 0 <= i && i < len(t.createdFiles) ==> madeByUs[t.createdFiles[i]]
 
+//@ # existence changed (since the function was entered) only for the first n recorded paths and what is inside them
+//@ pure touchedOnly(t *trzszTransfer, n int) bool = \
+//@     forall q string {fsExists[q]} :: \
+//@         (forall k int {t.createdFiles[k]} :: 0 <= k && k < n ==> !within(t.createdFiles[k], q) && !same(q, t.createdFiles[k])) ==> \
+//@         fsExists[q] == old(fsExists)[q]
+
 //@ # one fresh top-level name per source path id, chosen when nothing of that name existed
 //@ pure nameMapWF(t *trzszTransfer) bool = \
 //@     forall k int {has(t.fileNameMap, k)} :: has(t.fileNameMap, k) ==> \
@@ -391,6 +403,10 @@ package trzsz
 //@     invariant [C10] createdMade(t)
 //@     invariant len(t.createdFiles) > 0 ==> ref(deletedFiles) != ref(t.createdFiles)
 //@     invariant ref(deletedFiles) <= alloc()
+//@     invariant [C09,C10] touchedOnly(t, #i)
+//@   # whole view: the existence of every path that is neither a recorded path nor inside one is unchanged -
+//@   # the clean-up removes nothing beside what this transfer recorded (in particular nothing above it)
+//@   ensures [C09,C10] touchedOnly(t, len(t.createdFiles))
 //@ end
 
 //@ func trzszTransfer.createFile
@@ -820,6 +836,9 @@ package trzsz
 //@   before trzszTransfer.sendHash#0 assert [C08] 0 <= step && step <= size
 //@   before trzszTransfer.sendHash#0 assert [C08] wlen[hasher] == step
 //@   before trzszTransfer.sendHash#0 assert [C08] old(fpos)[file] == 0 ==> hashedPrefix(hasher, file, step)
+//@   # the blocks compared are full blocks of kPrefixHashStep bytes (the last one: what is left) - the
+//@   # acknowledgement reader's sequence check (repair of D8) is exact only under this block size
+//@   before os.File.Read assert [C02,C08] len(p0) == min(kPrefixHashStep, size - step)
 //@ end
 
 //@ # The acknowledgement reader: the step it reports is the last one the receiver acknowledged as
@@ -1391,6 +1410,12 @@ package trzsz
 //@   ensures [C06] len(uniqueID) <= 6 ==> !r0
 //@   ensures [C06] old(has(detector.uniqueIDMap, uniqueID)) && len(uniqueID) > 6 && windowsEnvironment ==> r0
 //@   ensures [C06] len(uniqueID) > 6 && windowsEnvironment ==> has(detector.uniqueIDMap, uniqueID)
+//@   # everywhere else the only ids exempt from tracking are the 13-digit ids ending in "00" (a plain
+//@   # server's, never redrawn): every other id longer than 6 is recognised when repeated and recorded
+//@   ensures [C06] old(has(detector.uniqueIDMap, uniqueID)) && len(uniqueID) > 6 && \
+//@       !(len(uniqueID) == 13 && uniqueID[11] == 48 && uniqueID[12] == 48) ==> r0
+//@   ensures [C06] len(uniqueID) > 6 && !(len(uniqueID) == 13 && uniqueID[11] == 48 && uniqueID[12] == 48) ==> \
+//@       has(detector.uniqueIDMap, uniqueID)
 //@ end
 
 //@ # Output that is not a complete trigger starts nothing and is passed on as the very same slice;
@@ -1535,6 +1560,7 @@ package trzsz
 //@       trigger == result_of("trzszDetector.detectTrzsz", 0, 1)
 //@   loop 1
 //@     invariant !detector.relay && detector.uniqueIDMap != nil
+//@     invariant [C19] !undropped
 //@   before writeAll#1 assert [C05,C06] trigger == nil && (same(result_of("traceLogger.writeTraceLog", 0, 0), buffer[0:n]) ==> \
 //@       dst == filter.clientOut && same(data, buffer[0:n]) && n == result_of("io.Reader.Read", 0, 0))
 //@   before writeAll#0 assert [C05] same(result_of("traceLogger.writeTraceLog", 0, 0), buffer[0:n]) ==> \
@@ -1549,6 +1575,10 @@ package trzsz
 //@       p0 == result_of("atomic.Pointer.Load[github.com/trzsz/trzsz-go/trzsz.zmodemTransfer]", 0, 0)
 //@   before atomic.Pointer.CompareAndSwap[github.com/trzsz/trzsz-go/trzsz.zmodemTransfer]#1 assert [C19] \
 //@       p0 == nil && p1 == result_of("detectZmodem", 0, 0) && p1 != nil
+//@   ghostvar undropped bool = false
+//@   after zmodemTransfer.handleServerOutput set undropped = !r0
+//@   after atomic.Pointer.CompareAndSwap[github.com/trzsz/trzsz-go/trzsz.zmodemTransfer]#0 set undropped = false
+//@   before trzszDetector.detectTrzsz assert [C19] !undropped
 //@   before go:zmodemTransfer.handleZmodemEvent assert [C19] \
 //@       result_of("atomic.Pointer.CompareAndSwap[github.com/trzsz/trzsz-go/trzsz.zmodemTransfer]", 1, 0)
 //@   before go:zmodemTransfer.handleZmodemEvent assert [C19] zmodem == result_of("detectZmodem", 0, 0)
@@ -1560,6 +1590,14 @@ package trzsz
 //@ func TrzszFilter.wrapInput
 //@   before TrzszFilter.sendInput#0 assert [C05] same(buf, buffer[0:n]) && n == result_of("io.Reader.Read", 0, 0) && n > 0
 //@   before io.WriteCloser.Close assert [C05] result_of("io.Reader.Read", 0, 1) == pkgvar("io.EOF")
+//@   # a Read may return bytes together with its error: nothing that was read is left unforwarded - neither
+//@   # when the pump reads again nor when it closes the server's input
+//@   ghostvar unsent bool = false
+//@   after io.Reader.Read set unsent = r0 > 0
+//@   after TrzszFilter.sendInput set unsent = false
+//@   loop 1
+//@     invariant [C05] !unsent
+//@   before io.WriteCloser.Close assert [C05] !unsent
 //@ end
 
 // ===========================================================================
@@ -1835,8 +1873,12 @@ package trzsz
 //@   ghostvar sawPause bool = false
 //@   after atomic.Bool.Load set sawPause = sawPause || r0
 //@   ensures [C18] sawPause ==> r2
+//@   # ... and ONLY then: the read is repeated after a timeout only if the pause counter had advanced
+//@   ghostvar lastTimeout bool = false
+//@   after trzszTransfer.recvLine set lastTimeout = r1 == boxOf(errReceiveDataTimeout)
 //@   loop 1
 //@     invariant [C18] sawPause ==> pause
+//@     invariant [C18] lastTimeout ==> idxBefore < idxAfter
 //@     invariant t.buffer != nil && tbWF(t.buffer) && t.transferConfig.Protocol == old(t.transferConfig.Protocol)
 //@   loop 2
 //@     invariant [C18] sawPause ==> pause
@@ -1914,6 +1956,15 @@ package trzsz
 //@   before trzszTransfer.setLastChunkTime assert [C18] !result_of("trzszTransfer.pipelineRecvCurrentAck", 0, 2) || \
 //@       result_of("atomic.Bool.Load", 0, 0)
 //@   before time.Since assert [C18] !result_of("trzszTransfer.pipelineRecvCurrentAck", 0, 2) || result_of("atomic.Bool.Load", 0, 0)
+//@   # C18 (found by a seeded change): the encoder may be waiting for the size-probing hand-shake; whoever
+//@   # switches the probing phase off in this stage releases it (WaitGroup.Done) before going on - no
+//@   # iteration, and no exit, leaves the release owed
+//@   ghostvar owed bool = false
+//@   after atomic.Bool.Store set owed = owed || !p0
+//@   after sync.WaitGroup.Done set owed = false
+//@   loop 1
+//@     invariant [C18] !owed
+//@   ensures [C18] !owed
 //@ end
 
 //@ # The sending stage of the pipelined sender.  deliver: the record queued for the acknowledgement stage
@@ -2170,6 +2221,7 @@ package trzsz
 
 //@ # The session counts as over exactly when it is stopped AND cleaned (as read by this call).
 //@ func zmodemTransfer.isTransferringFiles
+//@   assigns nothing
 //@   before atomic.Bool.Load#0 assert [C19] recv == z.stopped
 //@   before atomic.Bool.Load#1 assert [C19] recv == z.cleaned
 //@   ensures [C19] !r0 ==> result_of("atomic.Bool.Load", 0, 0) && result_of("atomic.Bool.Load", 1, 0)
@@ -2229,4 +2281,24 @@ package trzsz
 //@   after trzszBuffer.setNewTimeout set renewed = true
 //@   before atomic.Bool.Store assert [C18] recv == t.pausing && !p0 && resumeSet && renewed
 //@   before atomic.Int64.Store assert [C18] recv == t.pauseBeginTime && p0 == 0
+//@ end
+
+//@ # The stop/continue question (client side): whatever the answer - or a failed prompt - the pause it began
+//@ # is ended for the transfer that is still there: "continue" or a failed prompt resumes, the two stop
+//@ # answers stop (keeping or deleting as chosen); no answer leaves the transfer paused.
+//@ func TrzszFilter.confirmStopTransfer$1
+//@   ghostvar ended bool = false
+//@   after trzszTransfer.resumeTransferringFiles set ended = true
+//@   after trzszTransfer.stopTransferringFiles set ended = true
+//@   before trzszTransfer.resumeTransferringFiles assert [C18] result_of("promptui.Select.Run", 0, 2) != nil || result_of("promptui.Select.Run", 0, 0) == 2
+//@   before trzszTransfer.stopTransferringFiles assert [C18,C10] result_of("promptui.Select.Run", 0, 2) == nil && \
+//@       ((result_of("promptui.Select.Run", 0, 0) == 0 && !p0) || (result_of("promptui.Select.Run", 0, 0) == 1 && p0))
+//@   ensures [C18] result_of("atomic.Pointer.Load[github.com/trzsz/trzsz-go/trzsz.trzszTransfer]", 0, 0) != nil && \
+//@       (result_of("promptui.Select.Run", 0, 2) != nil || \
+//@        (0 <= result_of("promptui.Select.Run", 0, 0) && result_of("promptui.Select.Run", 0, 0) <= 2)) ==> ended
+//@ end
+//@ # the question is asked - and the transfer paused - only by the call that installed the prompt pipe
+//@ func TrzszFilter.confirmStopTransfer
+//@   before trzszTransfer.pauseTransferringFiles assert [C18] result_of("atomic.Pointer.CompareAndSwap[io.PipeWriter]", 0, 0)
+//@   before go:TrzszFilter.confirmStopTransfer$1 assert [C18] result_of("atomic.Pointer.CompareAndSwap[io.PipeWriter]", 0, 0)
 //@ end
